@@ -970,7 +970,7 @@ C09.order:phase: values are linked in a later pass over the definitions than the
     crate::rules::c02::rebuild(m, ctx, "C09.rebuild");
     order(m, ctx, "C09.order");
     // a DEFAULT copied into a SEQUENCE value is linked whether or not its type was linked before (= C07.struct)
-    crate::rules::c07::implicit_defaults(m, ctx, "C09.order");
+    crate::rules::c07::implicit_defaults(m, ctx, "C09.order", false);
     params(m, ctx);
     constraint_pairs(m, ctx, "C09.sym");
 
